@@ -187,12 +187,22 @@ class Enum(t.Enum, metaclass=EnumType):
         return cls._encode_array(array)
 
     @classmethod
+    def _has_member(cls, item: t.Enum) -> bool:
+        # Enumerations compare equal by name: also check that the item really
+        # designates a member of this one.
+        return (
+            cls == item.__class__
+            and item.index < len(cls.names)
+            and cls.names[item.index] == item.name
+        )
+
+    @classmethod
     def _encode_array(cls, value: t.VarArray) -> t.EnumArray:
         if _is_int_array(value):
             indices = _int_to_index(cls, value)
         elif _is_str_array(value):  # type: ignore[unreachable]
             indices = _str_to_index(cls, value)
-        elif _is_enum_array(value) and all(cls == item.__class__ for item in value):
+        elif _is_enum_array(value) and all(cls._has_member(item) for item in value):
             indices = _enum_to_index(value)
         else:
             raise EnumEncodingError(cls, value)
@@ -207,7 +217,7 @@ class Enum(t.Enum, metaclass=EnumType):
         elif _is_str_array_like(value):  # type: ignore[unreachable]
             indices = _str_to_index(cls, value)
         elif _is_enum_array_like(value) and all(
-            cls == item.__class__ for item in value
+            cls._has_member(item) for item in value
         ):
             indices = _enum_to_index(value)
         else:
